@@ -1073,6 +1073,10 @@ class CompositeEnvelope:
         outcomes: Dict["BaseState", int]
         outcomes = {}
 
+        for s in states:
+            if s.measured:
+                raise ValueError("State was already destructively measured")
+
         # Compile the complete list of states
         state_list = list(states)
         if not separate_measurement:
